@@ -33,10 +33,12 @@ def Err.str : Err → String
   | .notAChild => "notAChild" | .indexError => "internal:IndexError" | .unmodelled => "unmodelled"
 
 /-- shape classes -/
+def isUnitLeaf : Particle → Bool
+  | .elem _ 1 (some 1) => true
+  | _ => false
+
 def isRootChoice : Particle → Bool
-  | .choice _ _ ps => ps.all (fun p => match p with
-      | .elem _ 1 (some 1) => true
-      | _ => false)
+  | .choice mi ma ps => decide (mi ≤ 1) && !ps.isEmpty && (ma == none || ma == some 1) && ps.all isUnitLeaf
   | _ => false
 
 def nodupNat : List Nat → Bool
@@ -99,11 +101,14 @@ def remove (k : Kids) (cid : Nat) : Except Err Kids :=
   if (ids k).contains cid then .ok (k.filter (·.1 != cid)) else .error .notAChild
 
 /-- replace_child(old, new) on a checked element: same element name required -/
+def replFirst (old : Nat) (nw : Nat × Nat) : Kids → Kids
+  | [] => []
+  | c :: r => if c.1 == old then nw :: r else c :: replFirst old nw r
+
 def replace (k : Kids) (old new n : Nat) : Except Err Kids :=
   match k.find? (·.1 == old) with
   | none => .error .notAChild
-  | some (_, m) => if m == n then .ok (k.map (fun c => if c.1 == old then (new, n) else c))
-                   else .error .wrongElement
+  | some (_, m) => if m == n then .ok (replFirst old (new, n) k) else .error .wrongElement
 
 /-- schema-ordered view -/
 def ordered (p : Particle) (k : Kids) : Kids :=
@@ -115,5 +120,27 @@ def required (p : Particle) (k : Kids) : List Nat :=
   else match p with
     | .choice mi _ ps => if mi ≥ 1 && k.isEmpty then (ps.map (fun q => q.leaves)).flatten else []
     | _ => []
+
+
+/-! ### operation histories -/
+inductive Op
+  | add (cid n : Nat) (fwd : Option Int)
+  | rm (cid : Nat)
+  | repl (old new n : Nat)
+  deriving Repr
+
+def step (p : Particle) (k : Kids) : Op → Except Err Kids
+  | .add c n f => add p k c n f
+  | .rm c => remove k c
+  | .repl o nw n => replace k o nw n
+
+/-- a raising call leaves the element as it was: the Python exception propagates and (on Tame
+    templates, by the correspondence run) nothing has been touched -/
+def apply (p : Particle) (k : Kids) (op : Op) : Kids :=
+  match step p k op with
+  | .ok k' => k'
+  | .error _ => k
+
+def run (p : Particle) (ops : List Op) : Kids := ops.foldl (apply p) []
 
 end Msimple
